@@ -425,7 +425,7 @@ func main() {
 	})
 	run.SetExtra("exhaustive_subspace", fmt.Sprintf("all call sequences of length 1..%d over %d operations x 4 capability sets x 4 underlying failure points: enumerated completely", maxLen, nOps))
 	// random longer sequences
-	n := run.Pick(2000, 1000000)
+	n := run.Pick(2000, 5000000)
 	run.Parallel(n/100, func(b int) {
 		r := run.Rand(uint64(b))
 		f := routerWithSeq()
@@ -695,7 +695,9 @@ func helpers(run *kit.Run) {
 		}, 201, "text/x-stream", "stream", "", nil})
 	}
 	cases = append(cases, hc{"Blob empty body", func(c fox.Context) error { return c.Blob(200, "application/x-verif", nil) }, 200, "application/x-verif", "", "", nil})
-	cases = append(cases, hc{"Blob 300000 bytes", func(c fox.Context) error { return c.Blob(200, "application/x-verif", []byte(strings.Repeat("b", 300000))) }, 200, "application/x-verif", strings.Repeat("b", 300000), "", nil})
+	cases = append(cases, hc{"Blob 300000 bytes", func(c fox.Context) error {
+		return c.Blob(200, "application/x-verif", []byte(strings.Repeat("b", 300000)))
+	}, 200, "application/x-verif", strings.Repeat("b", 300000), "", nil})
 	cases = append(cases, hc{"Stream from an eager-EOF reader", func(c fox.Context) error {
 		return c.Stream(200, "text/x-stream", &failingReader{data: "eager", eager: true})
 	}, 200, "text/x-stream", "eager", "", nil})
